@@ -155,6 +155,7 @@ def job(a):
 def _job(a, Packing, PackingSpace, logp):
     W, H, kmin, kmax, shard, nshards, double = a
     bads = []
+    prev = None
     cnt = 0
     npk = 0
     acc = 0
@@ -169,6 +170,24 @@ def _job(a, Packing, PackingSpace, logp):
         pk = Packing(inst)
         rows_inst = [[int(v) for v in r] for r in np.asarray(inst)]
         alpha = alphabet(W, H, inst)
+        # the space of the previous instance is still alive: it must go on
+        # accepting its own feasible packing after another space was made
+        if prev is not None:
+            cnt += 1
+            out = validate_outcome(prev[0], prev[1])
+            if out is not None:
+                bads.append(("validate|rejects feasible packing|after a "
+                             "space for another instance was created",
+                             prev[2], prev[3], prev[4],
+                             np.asarray(prev[1]).tolist(), prev[1].n_bins,
+                             out, "ok", f"then PackingSpace for bin {W}x{H} "
+                             f"items={rows} was created"))
+        prev = None
+        if len(store):
+            keep = Packing(inst)
+            keep[:, :] = store[0]
+            keep.n_bins = int(np.asarray(store[0])[:, 1].max())
+            prev = (space, keep, W, H, rows)
         for si, s in enumerate(store):
             base = np.array(s, np.int64)
             k = int(base[:, 1].max())
